@@ -3,6 +3,7 @@
 
 """Defines a polygon."""
 
+import copy
 import warnings
 
 import numpy as np
@@ -368,24 +369,21 @@ class Polygon(Shape2D):
         # axis theorem can be applied in the reverse direction (rotating about
         # the origin before translating to the actual centroid).
         original_center = self.center.copy()
-        original_vertices = self._vertices.copy()
-        original_normal = self._normal.copy()
 
-        self.center = (0, 0, 0)
+        # Work on a copy: the vertex array of this polygon is shared with callers
+        # (it is what the vertices property returns), so it must not be moved.
+        shape = copy.deepcopy(self)
+        shape.center = (0, 0, 0)
         mat, _ = rowan.mapping.kabsch(
-            [self.normal, -self.normal], [[0, 0, 1], [0, 0, -1]]
+            [shape.normal, -shape.normal], [[0, 0, 1], [0, 0, -1]]
         )
-        self._vertices = self._vertices.dot(mat.T)
-        self._normal = np.asarray([0, 0, 1])
+        shape._vertices = shape._vertices.dot(mat.T)
+        shape._normal = np.asarray([0, 0, 1])
 
-        inertia_tensor = np.diag([0, 0, self.polar_moment_inertia])
+        inertia_tensor = np.diag([0, 0, shape.polar_moment_inertia])
         shifted_inertia_tensor = translate_inertia_tensor(
-            original_center, rotate_order2_tensor(mat, inertia_tensor), self.area
+            original_center, rotate_order2_tensor(mat, inertia_tensor), shape.area
         )
-
-        self.center = original_center
-        self._vertices = original_vertices
-        self._normal = original_normal
 
         return shifted_inertia_tensor
 
@@ -798,12 +796,13 @@ class Polygon(Shape2D):
         dict
             Dict containing a subset of shape properties required for HOOMD function.
         """
-        old_centroid = self.centroid
-        self.centroid = np.array([0, 0, 0])
-        data = self.to_json(["vertices", "centroid", "area", "inertia_tensor"])
+        # Centre a copy rather than this polygon: moving the shared vertex array
+        # and moving it back would show through every reference handed out before.
+        shape = copy.deepcopy(self)
+        shape.centroid = np.array([0, 0, 0])
+        data = shape.to_json(["vertices", "centroid", "area", "inertia_tensor"])
         hoomd_dict = _map_dict_keys(data, key_mapping=_hoomd_dict_mapping)
-        hoomd_dict = {**hoomd_dict, **{"vertices": self.vertices[:, :2]}}
+        hoomd_dict = {**hoomd_dict, **{"vertices": shape.vertices[:, :2]}}
         hoomd_dict["sweep_radius"] = 0.0
 
-        self.centroid = old_centroid
         return hoomd_dict
